@@ -36,6 +36,15 @@ Definition same_table (r r' : res) : bool := beq (r_unit r) (r_unit r') && beq (
 Definition wf_a (rs : list res) : bool :=
   forallb (fun r => forallb (fun r' =>
     negb (is_num r && is_num r' && beq (r_nh r) (r_nh r')) || beq (r_ser r) (r_ser r')) rs) rs.
+(** the weaker form of [wf_a] the correspondence run gates on: a numerator
+    hash has one series INSTANT (the stamps of its results are equal as texts,
+    or normalise to the same string); sound for [WFset_norm]
+    (Proofs/SeriesSpelling.v), under which the specification is still met *)
+Definition wf_a_norm (rs : list res) : bool :=
+  forallb (fun r => forallb (fun r' =>
+    negb (is_num r && is_num r' && beq (r_nh r) (r_nh r'))
+    || beq (r_ser r) (r_ser r')
+    || match nser r, nser r' with Some a, Some b => beq a b | _, _ => false end) rs) rs.
 Definition wf_c (rs : list res) : bool :=
   forallb (fun r => forallb (fun r' =>
     negb (is_den r && is_den r' && keqb (tkey r) (tkey r')) || beq (r_dh r) (r_dh r')) rs) rs.
